@@ -238,6 +238,20 @@ def rule_loop_reset(ctx, dirs=("mfhdf/hdfimport/",)):
                                         if fld is None and d[0] == v and d[2] is not None and is_int(d[2], 0):
                                             cleared = True
                                     continue
+                                # a helper called at the top of the body that clears the flag through its parameter counts as well
+                                for c2 in calls_in(kid2[1], True):
+                                    g = prog.func(c2[1], f.tu)
+                                    if g is None or c2[1] == c[1]:
+                                        continue
+                                    gp = [q[0] for q in g.params]
+                                    for ai2, a2 in enumerate(c2[3]):
+                                        a2 = strip(a2)
+                                        if kind(a2) == "addr" and kind(strip(a2[1])) == "var" and strip(a2[1])[1] == v and ai2 < len(gp):
+                                            for _b9, _i9, _s9, y in g.nodes(True):
+                                                if y[0] == "asg" and y[1] == "=" and is_int(y[3], 0) and base_var(y[2]) == gp[ai2]:
+                                                    t9 = strip(y[2])
+                                                    if (fld is None and kind(t9) == "deref") or (fld is not None and kind(t9) == "mem" and t9[2] == fld):
+                                                        cleared = True
                                 for x in walk(kid2[1], True):
                                     if x[0] == "asg" and x[1] == "=" and is_int(x[3], 0):
                                         t = strip(x[2])
@@ -1017,6 +1031,9 @@ def rule_cursor_advanced_by_copy(ctx):
                                 if x[0] == "asg" and mem_field(x[2]) == mem_field(cur):
                                     if x[1] == "+=" and render(strip(x[3])) == ln:
                                         ok = True
+                                    elif x[1] == "=" and kind(strip(x[3])) == "bin" and strip(x[3])[1] == "+" and \
+                                            {render(strip(strip(x[3])[2])), render(strip(strip(x[3])[3]))} == {render(cur), ln}:
+                                        ok = True  # cursor = cursor + n
                                     elif wrong is None:
                                         wrong = render(x)
                             if ok or wrong:
